@@ -71,34 +71,59 @@ func (e *Engine) emit(o *Oblig, lambda bool, withModel bool) string {
 	type factRec struct {
 		text string
 		syms []string // specific symbols
+		all  []string // every generated symbol (name!N) it mentions
 		kept bool
 	}
+	declared := map[string]bool{}
+	for _, d := range allDefs {
+		declared[d.name] = true
+	}
+	for _, d := range e.heapDecls {
+		declared[d.name] = true
+	}
 	var recs []*factRec
-	collect := func(text string) {
+	collect := func(text, origin string) {
 		ss := map[string]bool{}
 		symbolsOf(text, ss)
 		r := &factRec{text: text}
 		bound := boundVars(text)
 		for x := range ss {
-			if !ubiquitous(x) && !bound[x] {
-				r.syms = append(r.syms, x)
+			if strings.Contains(x, "!") && !bound[x] {
+				r.all = append(r.all, x)
+			}
+		}
+		if !strings.HasPrefix(origin, "frame") { // frame facts are always kept
+			for x := range ss {
+				if !ubiquitous(x) && !bound[x] {
+					r.syms = append(r.syms, x)
+				}
 			}
 		}
 		recs = append(recs, r)
 	}
 	for _, f := range e.gfacts {
-		collect(f.t.s)
+		collect(f.t.s, f.origin)
 	}
 	for _, f := range e.facts[:o.nfacts] {
-		collect(f.t.s)
+		collect(f.t.s, f.origin)
 	}
 	for _, f := range o.xFacts {
-		collect(f.t.s)
+		collect(f.t.s, f.origin)
 	}
 	for changed := true; changed; {
 		changed = false
 		for _, r := range recs {
 			if r.kept {
+				continue
+			}
+			inScope := true
+			for _, x := range r.all {
+				if !declared[x] {
+					inScope = false // mentions a symbol created after this obligation: not an assumption of it
+					break
+				}
+			}
+			if !inScope {
 				continue
 			}
 			rel := len(r.syms) == 0
